@@ -158,6 +158,30 @@ def judge_objects(objs, has_solution, sent_ids, tag, new_ids=()):
     return probs, outc
 
 
+def judge_tables(ctx, has_solution, tag):
+    """get_class_constraints_duals() of every leaf function: without a solution it must raise the documented ValueError as
+    soon as a table holds a constraint - never return numbers (nan included)."""
+    from PEPit.function import Function
+    from PEPit.constraint import Constraint
+    probs = []
+    for f in Function.list_of_functions:
+        if not f.get_is_leaf():
+            continue
+        has_cell = any(isinstance(c_, Constraint) for t_ in f.tables_of_constraints.values() for c_ in getattr(t_, "values", np.zeros(0)).ravel()) \
+            if all(hasattr(t_, "values") for t_ in f.tables_of_constraints.values()) else True
+        try:
+            out = f.get_class_constraints_duals()
+        except Exception as e:
+            if has_solution:
+                probs.append(("%s:tables-raise-after-successful-solve:%s" % (tag, type(e).__name__), "get_class_constraints_duals() raised %s" % type(e).__name__))
+            elif type(e).__name__ != "ValueError":
+                probs.append(("%s:tables-wrong-exception:%s" % (tag, type(e).__name__), "get_class_constraints_duals() raised %s instead of ValueError" % type(e).__name__))
+            continue
+        if not has_solution and has_cell:
+            probs.append(("%s:tables-number-without-solution" % tag, "get_class_constraints_duals() returned tables although there is no solution"))
+    return probs
+
+
 # ---- (A) ----------------------------------------------------------------------------------------------------------
 
 def run_presolve(spec):
@@ -243,6 +267,7 @@ def run_history(mname, hist):
     sent = {id(c) for c in pep._list_of_constraints_sent_to_wrapper} | {id(m) for m in pep._list_of_psd_sent_to_wrapper}
     objs = all_objects(ctx, extra)
     p2, outc = judge_objects(objs, has_solution, sent if has_solution else set(), "history", new_ids)
+    p2 += judge_tables(ctx, has_solution, "history")
     return probs + p2, outc, "solved" if has_solution else "unsolved"
 
 
@@ -267,6 +292,7 @@ def run_failing(spec, backend, solver):
                  "solve of an %s model returned %r (solver status %s)" % (kind, r["value"], r["status"]))], \
                {"failing:%s:number" % backend: 1}
     probs, outc = judge_objects(all_objects(ctx), False, set(), "after-failed-solve")
+    probs += judge_tables(ctx, False, "after-failed-solve")
     outc["failing:%s:none" % backend] = 1
     return probs, outc
 
@@ -283,6 +309,7 @@ INVALID = [
     ("opt", "PD_gapIV"), ("opt", "pd_gapi"), ("opt", None),
     ("d", 0), ("d", -1), ("d", 1.5), ("d", "2"), ("d", None),
     ("sense", "leq"), ("sense", None), ("sense", "Equality"),
+    ("solver", "NOT_A_SOLVER"), ("solver", "CLARABLE"), ("solver", ""), ("solver", 3), ("solver", "scs "),
 ]
 
 
@@ -297,6 +324,8 @@ def run_invalid(case, spec=None, solver="CLARABEL"):
             out = ctx.pep.solve(verbose=0, return_primal_or_dual=val, **kw)
         elif name == "dimension_reduction_heuristic":
             out = ctx.pep.solve(verbose=0, dimension_reduction_heuristic=val, **kw)
+        elif name == "solver":
+            out = ctx.pep.solve(verbose=0, solver=val)
         elif name == "notion":
             out = inexact_gradient_step(ctx.points["x0"], ctx.funcs["f"], 1.0, 0.1, notion=val)
         elif name == "opt":
@@ -307,7 +336,7 @@ def run_invalid(case, spec=None, solver="CLARABEL"):
             out = Constraint(ctx.exprs["dn"], val)
     except Exception as e:
         return [], {"invalid:%s:raised:%s" % (name, type(e).__name__): 1}
-    if name in ("return_primal_or_dual", "dimension_reduction_heuristic") and out is None:
+    if name in ("return_primal_or_dual", "dimension_reduction_heuristic", "solver") and out is None:
         return [], {"invalid:%s:no-value" % name: 1}     # the solver found nothing: nothing was fabricated either
     return [("invalid-option-accepted:%s:%r" % (name, val), "%s=%r was accepted and returned %r" % (name, val, out if isinstance(out, float) else type(out).__name__))], {}
 
